@@ -134,7 +134,27 @@ Definition step_gr (s : sgr) (o : line) : sgr * list bytes :=
     end
   else if beqb op (bs "rnew") then
     (s <| solo := (arg 1 o, (new_router (arg 1 o) [] (argb 2 o) [], argb 3 o)) :: solo s |>, [bs "ok"])
-  else if beqb op (bs "gremove") then (s <| grp := g_remove (grp s) (arg 1 o) |>, [bs "ok"])
+  else if beqb op (bs "gremove") then
+    (* the removed router object stays usable: it is kept (with its recovery option) among the routers outside the group *)
+    let s1 := match List.find (fun x => beqb (gr_name x) (arg 1 o)) (g_routers (grp s)) with
+              | Some x => s <| solo := aset (arg 1 o) (gr_router x, gr_recover x) (solo s) |>
+              | None => s
+              end in
+    (s1 <| grp := g_remove (grp s) (arg 1 o) |>, [bs "ok"])
+  else if beqb op (bs "gadd") then
+    (* gadd name spec… : Group.Add(matcher, r) with an existing router object *)
+    match alookup (arg 1 o) (solo s) with
+    | None => (s, [bs "norouter"])
+    | Some (r, rec) =>
+      match parse_matcher 8 (skipn 2 a) with
+      | None => (s, [bs "panic"; bs "other"])
+      | Some (m, _) =>
+        match g_add (grp s) m r rec with
+        | Some g => (s <| grp := g |> <| solo := adelete (arg 1 o) (solo s) |>, [bs "ok"])
+        | None => (s, [bs "panic"; bs "other"])
+        end
+      end
+    end
   else if beqb op (bs "guse") then (s <| grp := g_use (grp s) (fst (take_list (skipn 1 a))) |>, [bs "ok"])
   else if beqb op (bs "ruse") then
     let mws := fst (take_list (skipn 2 a)) in
@@ -232,6 +252,7 @@ Definition oracle_gr_all (s s' : sgr) (o : line) (r : list bytes) : list bytes :
     let is_g := beqb op (bs "greq") in
     let rs := if is_g then parse_raises (fst (take_list (snd (take_list (skipn 6 a)))))
               else parse_raises (fst (take_list (skipn 4 a))) in
+    if obs_is r "norouter" then [] else     (* no such router outside the group (it joined the group): nothing was served *)
     if obs_is r "panic" then [cl "C05:serve-panics"; cl "C16:panic-escaped-outside-the-observed-path"] else
     let core := nth 1 r [] in
     let tl_ := split_byte 31 (nth 2 r []) in
@@ -288,7 +309,7 @@ Definition oracle_gr_all (s s' : sgr) (o : line) (r : list bytes) : list bytes :
      end)
   else if beqb op (bs "poolprobe") then
     check (obs_is r "1") "C16:context-returned-to-the-pool-twice" ++ check (obs_is r "1") "C07:context-returned-to-the-pool-twice"
-  else if beqb op (bs "gnew") then
+  else if beqb op (bs "gnew") || beqb op (bs "gadd") then
     check (negb (obs_is r "ok" && ahas (arg 1 o) (gspec s))) "C13:duplicate-router-name-accepted"
   else [].
 
@@ -298,6 +319,7 @@ Definition oracle_gr (s s' : sgr) (o : line) (r : list bytes) : list bytes :=
 Definition absorb_gr (s : sgr) (o : line) (r : list bytes) : sgr :=
   let op := arg 0 o in
   if beqb op (bs "gnew") && obs_is r "ok" then s <| gspec := gspec s ++ [(arg 1 o, skipn 4 (args o))] |>
+  else if beqb op (bs "gadd") && obs_is r "ok" then s <| gspec := gspec s ++ [(arg 1 o, skipn 2 (args o))] |>
   else if beqb op (bs "gremove") then s <| gspec := filter (fun kv => negb (beqb (fst kv) (arg 1 o))) (gspec s) |>
   else if beqb op (bs "guse") then s <| guses := guses s ++ fst (take_list (skipn 1 (args o))) |>
   else if beqb op (bs "gcfg") then s <| gspec := [] |> <| guses := [] |>
